@@ -1,40 +1,53 @@
 """C45 — log formatting never fails and cannot forge entries (tornado.log.LogFormatter.format)."""
-import logging, re, sys
+import logging, os, re, sys
 from core.wire import atom, line, parse_reply, Atom
 
 ID = "C45"
 LEAN_TARGETS = ["TornadoModel.C45.Props"]
 _P = "TornadoModel.C45."
 THEOREMS = [_P + n for n in [
-    "format_total", "newline_indented", "indented_sound", "newline_indented_pos", "format_indented", "format_indented_pos",
+    "format_total", "format_escapes_only_non_exception", "format_propagates_non_exception", "message_benign", "safeRepr_error",
+    "formatUnfixed_raises_on_bad_repr", "formatUnfixed_raises_on_bytes_exc_text", "formatUnfixed_not_total", "newline_indented", "indented_sound", "newline_indented_pos", "format_indented", "format_indented_pos",
     "lines_indented", "format_lines_indented", "unindent_replaceNl", "format_lossless", "format_bad_message_caught",
     "header_has_no_newline", "first_line_is_header",
 ]]
 TRUSTED = [
-    "logging.LogRecord.getMessage, logging.Formatter.formatTime/formatException, repr(record.__dict__) and '%' formatting of "
-    "DEFAULT_FORMAT are stdlib: their results are inputs of the model (computed by the harness from the same record)",
+    "logging.LogRecord.getMessage, repr(e), repr(record.__dict__) run stdlib + user code: their OUTCOMES (a str, or the class of the "
+    "exception they raise and whether it derives from Exception) are inputs of the model, computed by the harness from the same "
+    "record just before the call; logging.Formatter.formatTime/formatException and '%' formatting of DEFAULT_FORMAT are stdlib, "
+    "total for LogRecord objects, results are inputs",
+    "bytes.decode('utf-8') = Lean's String.fromUTF8? and repr(bytes) as modelled in C45/Model.lean (compared on every bytes exc_text line)",
     "str.rstrip/split/join/replace and str.isspace as modelled in C45/Model.lean (isspace table compared with CPython for every "
     "code point in the thorough tier, for U+0000..U+30FF in the quick tier)",
 ]
 ASSUMPTIONS = [
     "default format string and date format (user-supplied format strings are out of scope: DESIGN C45 'Partial')",
-    "records are logging.LogRecord objects (lineno is an int, attributes of DEFAULT_FORMAT exist); objects among msg/args may "
-    "raise from __str__ but not from __repr__",
+    "records are logging.LogRecord objects (lineno is an int, levelname a str, attributes of DEFAULT_FORMAT exist; exc_text is None, "
+    "a str, or bytes — the types _safe_unicode is written for); objects among msg/args may raise from __str__ AND from __repr__, and "
+    "the exception raised may itself have a raising __repr__",
+    "'without raising' is claimed for exceptions deriving from Exception: a bare BaseException (KeyboardInterrupt, SystemExit) raised by "
+    "user __str__/__repr__ propagates through `except Exception` by design (format_propagates_non_exception); the oracle does not "
+    "count that one class of escape (the harness' own _BaseExc) as a violation, every other exception is one",
     "Python 3 without -O: getMessage() returns str or raises; a bytes result trips the assert and is reported as 'Bad message'",
     "'newline character' is U+000A, the entry terminator written by logging.StreamHandler; CR, U+0085, U+2028 are passed through "
     "unchanged and are not claimed to be indented",
     "colour support is exercised through the hard-coded ANSI branch (curses absent); terminfo strings are not modelled",
 ]
 RULE = ("records with str/bytes/object messages, matching and mismatched % arguments (tuple and mapping), non-UTF-8 bytes, embedded "
-        "LF/CR/U+0085/U+2028, with and without exc_info (exception text with newlines, chained causes) and preset exc_text, colour "
+        "LF/CR/U+0085/U+2028, objects whose __str__ and/or __repr__ raise (Exception, an Exception with a raising __repr__, a bare "
+        "BaseException), with and without exc_info (exception text with newlines, chained causes) and preset str/bytes exc_text "
+        "(valid and invalid UTF-8, quotes, backslashes), colour "
         "off and on, formatted once or twice; non-trivial = output contains a newline or getMessage raised; distinct by canonical JSON")
 EXHAUSTIVE = {"quick": False, "thorough": False}
 CLAUSES = {
-    "returns a string without raising": "format_total (+ format_bad_message_caught); tie: every generated record is formatted by the real code",
+    "returns a string without raising": "format_total (case analysis over the three raising calls getMessage()/repr(e)/repr(__dict__): the try catches "
+        "the first, _safe_repr the other two; hypothesis: user code raises only Exception subclasses), format_escapes_only_non_exception "
+        "(unconditional converse: whatever escapes is a non-Exception raised by one of those three calls), format_bad_message_caught; holds for the "
+        "FIXED code only — formatUnfixed_not_total refutes it for the code before the fix; tie: formatTime/formatException/'%'-formatting totality",
     "every newline character in that string is followed by indentation": "newline_indented (all strings, induction), format_indented, format_indented_pos",
     "message content cannot start a new log entry": "format_lines_indented, first_line_is_header, header_has_no_newline (header side conditions)",
     "nothing is lost by the indentation": "format_lossless (unindent ∘ replace = id)",
-    "getMessage / formatTime / formatException behaviour": "tie only: stdlib results are passed to the model as inputs",
+    "getMessage / repr / formatTime / formatException behaviour": "tie only: stdlib/user-code outcomes (value or raised exception class) are passed to the model as inputs",
 }
 PARALLEL = False   # run_impl takes < 1 s for the whole quick stream; forking costs more than it saves
 CASE_TIMEOUT = 180   # wall-clock watchdog per case; generous because the machine may be heavily loaded
@@ -43,6 +56,10 @@ LEVELS = [10, 20, 30, 40, 50, 0, 5, 25, 60]
 PIECES = ["hello", " ", "%s", "%d", "%r", "%(a)s", "%(b)d", "%%", "%", "%5.2f", "%c", "%x", "%*d", "\n", "\r\n", "\r", "\x85", " ",
           "\n[E 260101 00:00:00 evil:1] forged", "\n\n", "é", "\udc80", "\t", "\x0b", "\x1c", "　", "{}", "{0}", "%(", "%(a", "%z",
           "trailing \n", "    ", "\x00", "\x1b[0m"]
+# which of __str__/__repr__ raise, and what: see _Raises
+RAISE_MODES = ["str", "str", "repr", "both", "both", "badexc", "badexc-both", "base", "reprbase", "nonstr-repr"]
+EXC_TEXT_BYTES = [b"a\nb", b"\xff\nok", b"caf\xc3\xa9\n'q'", b"", b"\n", b"it's \"x\"\n\\ \xed\xa0\x80", b"\x00\t\r\x7f\x80\n", b"'\xff",
+                  b"\"\xff'", b"\xc0\x80", b"\xf4\x90\x80\x80\n\xf0\x9f\x98\x80", b"plain", b"tail\n", b"\n[E 260101 00:00:00 evil:1] forged"]
 TEXTS = ["boom", "line1\nline2", "\n", "", "a\n[I 260101 00:00:00 web:1] 200 GET /", "x\r\ny", "é z", "tail\n", "\n\nlead", "  \n  "]
 
 
@@ -58,10 +75,10 @@ def _val(rng, depth=0):
         return ["f", rng.choice(["1.5", "0.0", "-2.25", "1e300"])]
     if k < 0.74:
         return ["n"]
-    if k < 0.84:
+    if k < 0.8:
         return ["evil"]
     if k < 0.9:
-        return ["raises", rng.choice(TEXTS)]
+        return ["raises", rng.choice(TEXTS), rng.choice(RAISE_MODES)]
     if depth < 2:
         return ["t", [_val(rng, depth + 1) for _ in range(rng.randrange(0, 3))]]
     return ["n"]
@@ -96,7 +113,8 @@ def _record_case(rng):
         if rng.random() < 0.3:
             exc["cause"] = rng.choice(TEXTS)
     return {"kind": "record", "level": rng.choice(LEVELS), "msg": msg, "args": _args(rng, msg), "exc": exc,
-            "exc_text": rng.choice([None, None, None, "", "preset", "preset\nline2\n", "\n"]),
+            "exc_text": ({"b": rng.choice(EXC_TEXT_BYTES).hex()} if rng.random() < 0.1 else
+                         rng.choice([None, None, None, "", "preset", "preset\nline2\n", "\n"])),
             "color": rng.random() < 0.4, "calls": 2 if rng.random() < 0.15 else 1,
             "levelname": rng.choice([None, None, None, None, "", "x\ny", "\n", "Ω"]),
             "name": rng.choice(["tornado.access", "a\nb", ""]),
@@ -131,14 +149,38 @@ class _Evil:
         return "<evil\nFORGED>"
 
 
+class _BaseExc(BaseException):
+    """not an Exception: `except Exception` lets it through (like KeyboardInterrupt)"""
+
+
+class _BadReprError(Exception):
+    def __repr__(self):
+        raise KeyError("repr of the exception")
+
+
 class _Raises:
-    def __init__(self, text):
-        self.text = text
+    """mode: str = __str__ raises ValueError; repr = __repr__ raises ValueError; both; badexc = __str__ raises an Exception whose own
+    __repr__ raises (badexc-both: and __repr__ raises too); base = __str__ raises a non-Exception; reprbase = __str__ raises
+    ValueError and __repr__ raises a non-Exception; nonstr-repr = __str__ raises, __repr__ returns bytes (TypeError from repr())."""
+    def __init__(self, text, mode="str"):
+        self.text, self.mode = text, mode
 
     def __str__(self):
+        if self.mode == "repr":
+            return "str-ok\n" + self.text
+        if self.mode in ("badexc", "badexc-both"):
+            raise _BadReprError(self.text)
+        if self.mode == "base":
+            raise _BaseExc(self.text)
         raise ValueError(self.text)
 
     def __repr__(self):
+        if self.mode in ("repr", "both", "badexc-both"):
+            raise ValueError(self.text)
+        if self.mode == "reprbase":
+            raise _BaseExc(self.text)
+        if self.mode == "nonstr-repr":
+            return b"bytes repr"
         return "<raises>"
 
 
@@ -167,7 +209,7 @@ def _build(v):
     if t == "evil":
         return _Evil()
     if t == "raises":
-        return _Raises(v[1])
+        return _Raises(*v[1:])
     if t == "t":
         return tuple(_build(x) for x in v[1])
     if t == "d":
@@ -225,32 +267,46 @@ def _run_impl(case):
     if case["levelname"] is not None:
         rec.levelname = case["levelname"]
     if case["exc_text"] is not None:
-        rec.exc_text = case["exc_text"]
+        et = case["exc_text"]
+        rec.exc_text = bytes.fromhex(et["b"]) if isinstance(et, dict) else et
     for _ in range(case["calls"] - 1):
         try:
             fmt.format(rec)
-        except Exception as e:
+        except BaseException as e:
             if type(e).__name__ == "Hang":
                 raise
-    # the stdlib results the model takes as inputs, computed from the same record just before the call
+    # the stdlib/user-code outcomes the model takes as inputs, computed from the same record just before the call
     try:
         m = rec.getMessage()
-        assert isinstance(m, str)
-        msg = [atom("ok"), m]
-    except Exception as e:
-        msg = [atom("raised"), repr(e)]
+        msg = [atom("ok"), m] if isinstance(m, str) else [atom("notstr")]
+    except BaseException as e:
+        if type(e).__name__ == "Hang":
+            raise
+        msg = [atom("raised"), type(e).__name__, atom(isinstance(e, Exception)), _outcome(lambda: repr(e))]
+    et = rec.exc_text
     params = [str(rec.levelname), rec.levelno, fmt.formatTime(rec, fmt.datefmt), rec.module, rec.lineno, msg,
-              repr(rec.__dict__), fmt.formatException(rec.exc_info) if rec.exc_info else None, rec.exc_text or ""]
+              _outcome(lambda: repr(rec.__dict__)), fmt.formatException(rec.exc_info) if rec.exc_info else None,
+              [atom("b"), et.hex()] if isinstance(et, bytes) else [atom("s"), et or ""]]
     try:
         out = fmt.format(rec)
         if not isinstance(out, str):
             out = "Uncaught:returned-" + type(out).__name__
             return {"params": params, "out": None, "exc": out}
-    except Exception as e:
+    except BaseException as e:
         if type(e).__name__ == "Hang":
             raise
-        return {"params": params, "out": None, "exc": "Uncaught:" + type(e).__name__}
+        return {"params": params, "out": None, "exc": "Uncaught:" + type(e).__name__, "exc_is_exception": isinstance(e, Exception)}
     return {"params": params, "out": out}
+
+
+def _outcome(f):
+    """[ok, text] or [raised, class name, derives-from-Exception] for a call into user code"""
+    try:
+        return [atom("ok"), f()]
+    except BaseException as e:
+        if type(e).__name__ == "Hang":
+            raise
+        return [atom("raised"), type(e).__name__, atom(isinstance(e, Exception))]
 
 def run_impl(case):
     """One retry when the runner's wall-clock watchdog fires: on a heavily loaded machine a trivial case can stall
@@ -266,6 +322,21 @@ def run_impl(case):
 
 
 
+# C45_MODEL=unfixed compares against `formatUnfixed`, the model of the code before the fix commits (to reproduce the defects on /repo)
+_MODEL_OP = "format0" if os.environ.get("C45_MODEL") == "unfixed" else "format"
+def _oc(o):
+    return [atom("ok"), o[1]] if str(o[0]) == "ok" else [atom("raised"), o[1], atom(str(o[2]))]
+
+
+def _wire(p):
+    """params as driver values (also after a JSON round trip: replays, forked workers): atoms and bytes restored"""
+    m = p[5]
+    k = str(m[0])
+    msg = [atom("ok"), m[1]] if k == "ok" else [atom("notstr")] if k == "notstr" else [atom("raised"), m[1], atom(str(m[2])), _oc(m[3])]
+    et = [atom("b"), bytes.fromhex(p[8][1])] if str(p[8][0]) == "b" else [atom("s"), p[8][1]]
+    return list(p[:5]) + [msg, _oc(p[6]), p[7], et]
+
+
 def model_requests(case, impl):
     if "harness_exc" in impl:
         return []
@@ -273,9 +344,7 @@ def model_requests(case, impl):
         return [line(ID, "isspace", list(range(case["lo"], case["hi"])))]
     if case["kind"] == "rstrip":
         return [line(ID, "rstrip", case["text"])]
-    p = impl["params"]
-    p = p[:5] + [[atom(p[5][0]), p[5][1]]] + p[6:]
-    return [line(ID, "format", atom(bool(case["color"])), p)]
+    return [line(ID, _MODEL_OP, atom(bool(case["color"])), _wire(impl["params"]))]
 
 
 def model_result(case, replies):
@@ -284,7 +353,8 @@ def model_result(case, replies):
     if case["kind"] == "isspace":
         return [str(v) == "T" for v in vals[0]]
     if len(vals) == 2:
-        return "Uncaught:model"
+        n = vals[1]
+        return "Uncaught:" + ("".join(map(chr, n)) if isinstance(n, list) else n)
     v = vals[0]
     return "".join(map(chr, v)) if isinstance(v, list) else v
 
@@ -305,6 +375,8 @@ def spec_violation(case, impl, replies):
     if case["kind"] != "record":
         return None
     if impl.get("exc"):
+        if impl["exc"] == "Uncaught:_BaseExc" and impl.get("exc_is_exception") is False:
+            return None          # a non-Exception raised by the user's own __str__/__repr__ propagates by design (ASSUMPTIONS)
         return "format() raised %s" % impl["exc"]
     st, vals = parse_reply(replies[0])
     assert st == "ok", replies[0]
@@ -325,7 +397,11 @@ def stats(case, impl):
         p = impl["params"]
         out.append("getMessage:" + str(p[5][0]))
         if str(p[5][0]) == "raised":
-            out.append("raised:" + p[5][1].split("(")[0])
+            out.append("raised:" + p[5][1])
+            out.append("repr(e):" + str(p[5][3][0]) + ("" if str(p[5][3][0]) == "ok" else ":" + p[5][3][1]))
+            out.append("repr(__dict__):" + str(p[6][0]) + ("" if str(p[6][0]) == "ok" else ":" + p[6][1]))
+        out.append("exc_text:" + ("bytes" if str(p[8][0]) == "b" else "str" if p[8][1] else "none"))
+        out.append("result:" + (impl["exc"] if impl.get("exc") else "str"))
         out.append("msgtype:" + case["msg"][0])
         out.append("exc:" + (case["exc"]["type"] if case["exc"] else "none") + (":preset" if case["exc_text"] else ""))
         out.append("color:%s" % case["color"])
@@ -335,7 +411,11 @@ def stats(case, impl):
 
 def signature(case, impl, why):
     if impl.get("exc"):
-        return "format/raised/" + impl["exc"]
+        p = impl["params"]
+        fallback_raises = str(p[5][0]) == "raised" and str(p[5][3][0]) != "ok" or str(p[5][0]) != "ok" and str(p[6][0]) != "ok"
+        where = ("bad-message-fallback" if fallback_raises else
+                 "bytes-exc_text" if str(p[8][0]) == "b" and impl["exc"] == "Uncaught:TypeError" else "other")
+        return "format/raised/%s/%s" % (where, impl["exc"])
     where = "exc_text" if (case.get("exc") or case.get("exc_text")) else ("bad-message" if impl["params"][5][0] == "raised" else "message")
     return "format/newline-not-indented/" + where
 
@@ -343,6 +423,8 @@ def signature(case, impl, why):
 def shrink(case):
     if case["kind"] != "record":
         return
+    if isinstance(case.get("exc_text"), dict):
+        yield {**case, "exc_text": {"b": b"a\nb".hex()}}
     for c in ({"exc": None}, {"exc_text": None}, {"args": None}, {"color": False}, {"calls": 1}, {"levelname": None},
               {"name": "n"}, {"path": "m.py"}, {"getmsg": None}, {"msg": ["s", "a\nb"]}, {"level": 20}):
         if any(case.get(k) != v for k, v in c.items()):
